@@ -54,8 +54,8 @@ var HopHeaders = []string{
 	"Keep-Alive",
 	"Proxy-Authenticate",
 	"Proxy-Authorization",
-	"Te", // canonicalized version of "TE"
-	"Trailers",
+	"Te",      // canonicalized version of "TE"
+	"Trailer", // not "Trailers": the RFC 2616 list has an erratum (RFC 7230 section 4.4 defines Trailer)
 	"Transfer-Encoding",
 	"Upgrade",
 }
